@@ -203,6 +203,14 @@ def run(chk):
     for ty in TYPES:
         cases.append(Case([("a", ty, ("", " p  q ")), ("a", "CDATA", ("", "second"))], {}))
         cases.append(Case([("a", "CDATA", "#IMPLIED"), ("a", ty, ("", "second"))], {"a": " p  q "}))
+    # a default is supplied unless an attribute OF THAT NAME is written: an attribute with the same local part under a prefix, or
+    # a namespace declaration for a prefix spelled like the attribute, is another name (round-6 seed C11-G compared local parts)
+    for ty in TYPES[:4]:
+        for lit in (" d1  d2 ", "v"):
+            cases.append(Case([("a", ty, ("", lit))], {"xmlns:p": "urn:p", "p:a": "w"}))
+            cases.append(Case([("a", ty, ("#FIXED", lit))], {"xmlns:a": "urn:a"}))
+            cases.append(Case([("p:a", ty, ("", lit))], {"a": "w", "xmlns:p": "urn:p"}))
+            cases.append(Case([("a", ty, ("", lit)), ("p:a", "CDATA", "#IMPLIED")], {"xmlns:p": "urn:p", "p:a": "w", "b": "x"}))
     n_sys = len(cases)
     # (2) random mixtures
     for _ in range(6000 if thorough else 1200):
